@@ -8,9 +8,12 @@ open LW LW.JS LW.Canon
 
 def strTok : P String := do let t ← next; if t.startsWith "s" then pure (sdrop t 1) else failure
 
+/-- the `known` token: 5 = the device-key store fails -/
+def storeFailsOf (args : List String) : Bool := args[1]? == some "5"
+
 def request : P (Req × Conf) := do
   let kind ← next
-  let known ← nat   -- 0 unknown device, 1 known, 2..4 known with a failing KEK / label lookup
+  let known ← nat   -- 0 unknown device, 1 known, 2..4 known with a failing KEK / label lookup, 5 known but the device-key store fails
   let nwk ← hex
   let app ← hex
   let nonce ← int
@@ -32,7 +35,7 @@ def request : P (Req × Conf) := do
                    devAddr := BitVec.ofNat 32 (leNat devAddr.reverse), optNeg, rx2dr := byteOfNat rx2dr, rx1off := byteOfNat rx1off,
                    rxDelay, cfList }
   let c : Conf := { device := if known ≥ 1 then some (nwk, app, nonce) else none, nsKEK, asLabel, asKEK := if asLabel then asKEK else [],
-                    lookupFails := known ≥ 2 }
+                    lookupFails := known ≥ 2 && known ≤ 4 }
   pure (q, c)
 
 def fmtKey : Option (Bool × Bytes) → String
@@ -54,7 +57,7 @@ def jsQuery (E : BlockCipher) (op : String) (args : List String) : String :=
     | none => "BADOP parse"
   else if op == "jsraw" then "ok 400 Other"   -- a body that is not a JoinReq / RejoinReq / HomeNSReq object: bare Result, code 400
   else match request args with
-    | some ((q, c), _) => "ok " ++ fmtAns (serve E q c)
+    | some ((q, c), _) => "ok " ++ fmtAns (serveStore (storeFailsOf args) E q c)
     | none => "BADOP parse"
 
 end LW.Driver.JSOps
